@@ -11,7 +11,7 @@ from .. import env, coq, runner
 
 LEVEL = 'other'
 META = dict(
-    text='Proof part: Coq theorems over an executable model of CirqEncoder/ObjectHook (values and JSON documents as finite trees, memo keyed by equality): decode(encode v) = v for every finite value with any sharing, VAL keys dense, one VAL per distinct by-key object, every REF met after its VAL is complete; value equality via canonical forms implies equal hashes (PeriodicValue, @value_equality); Qid._cmp_tuple is a strict total order and the order the qubit classes implement is total, consistent with equality and transitive for the registered class table (checked by vm_compute on every run); measurement keys written into documents as their joined string (Codec/KeyPath.v): parse(str k) = k with every path entry kept apart for keys of any nesting depth, str(parse s) = s for every string, string equality = structural equality on the domain, refuted outside it (a path entry containing the separator). The model is compared with the implementation on every run (full JSON text of generated nestings of by-key/plain objects, decoder results incl. malformed and legacy documents, VAL/REF key sequences of real FrozenCircuit nestings, qubit comparisons and sorted(), MeasurementKey str/parse_serialized and the key field of MeasurementGate documents on a fixed grid of keys 0..4 scopes deep plus random ones). Exploration part (deciding for the per-class half): every class registered in the resolver caches of cirq, cirq_google, cirq_ionq, cirq_aqt, cirq_pasqal is instantiated from its stored examples and from generated mutants of its constructor arguments, alone and nested in lists/dicts/circuits with shared sub-circuits, and checked for JSON round trip (== and hash), repr evaluation, behaviour (unitary, keys, str), the key OBJECTS carried (path entries, name, order - not only the joined strings), pickle/copy/deepcopy incl. a second process with another hash seed (every value hashed before it is pickled; every qid of the pool, also qids made of string-hashed qids, alone and inside operations/moments/frozen circuits/circuit operations; operations and circuits with their qubits renamed to string-hashed ones); keys 0..4 scopes deep through every entry point that puts a key into a document (measurements, Pauli measurements, conditions, classical controls, scoped and repeated sub-circuits unrolled, data stores) must come back with the same path, order and rescoping behaviour from JSON, pickle and deepcopy; every stored .json/.json_inward reads to the value of its paired .repr; the id()-keyed encoder cache is stressed and audited.',
+    text='Proof part: Coq theorems over an executable model of CirqEncoder/ObjectHook (values and JSON documents as finite trees, memo keyed by equality): decode(encode v) = v for every finite value with any sharing, VAL keys dense, one VAL per distinct by-key object, every REF met after its VAL is complete; value equality via canonical forms implies equal hashes (PeriodicValue, @value_equality); Qid._cmp_tuple is a strict total order and the order the qubit classes implement is total, consistent with equality and transitive for the registered class table (checked by vm_compute on every run); measurement keys written into documents as their joined string (Codec/KeyPath.v): parse(str k) = k with every path entry kept apart for keys of any nesting depth, str(parse s) = s for every string, string equality = structural equality on the domain, refuted outside it (a path entry containing the separator). the memo as a Python dict (Codec/MemoHash.v: entries found by hash, then ==) writes the reference document and round-trips for EVERY hash function, however many distinct by-key objects share one hash, whereas a memo keyed by hash(o) alone is refuted (two circuits on the qubits -1/-2 of a line, CPython hash(-1) = hash(-2)); equal mappings (dict equality: ParamResolver, ProductState) have equal hashes when the hash reads the items as a set, an equality that identifies a key written as a name with the key written as a symbol next to a hash of the items as written is refuted, so is a hash that reads the items in insertion order. The model is compared with the implementation on every run (full JSON text of generated nestings of by-key/plain objects, decoder results incl. malformed and legacy documents, VAL/REF key sequences of real FrozenCircuit nestings, qubit comparisons and sorted(), MeasurementKey str/parse_serialized and the key field of MeasurementGate documents on a fixed grid of keys 0..4 scopes deep plus random ones). Exploration part (deciding for the per-class half): every class registered in the resolver caches of cirq, cirq_google, cirq_ionq, cirq_aqt, cirq_pasqal is instantiated from its stored examples and from generated mutants of its constructor arguments, alone and nested in lists/dicts/circuits with shared sub-circuits, and checked for JSON round trip (== and hash), repr evaluation, behaviour (unitary, keys, str), the key OBJECTS carried (path entries, name, order - not only the joined strings), pickle/copy/deepcopy incl. a second process with another hash seed (every value hashed before it is pickled; every qid of the pool, also qids made of string-hashed qids, alone and inside operations/moments/frozen circuits/circuit operations; operations and circuits with their qubits renamed to string-hashed ones); keys 0..4 scopes deep through every entry point that puts a key into a document (measurements, Pauli measurements, conditions, classical controls, scoped and repeated sub-circuits unrolled, data stores) must come back with the same path, order and rescoping behaviour from JSON, pickle and deepcopy; every stored .json/.json_inward reads to the value of its paired .repr; the id()-keyed encoder cache is stressed and audited. HASH COLLISIONS (every seed alike): pools of small FrozenCircuits (qubits at negative and large coordinates, repetitions of either sign) and of generic by-key objects are hashed, every pair of DISTINCT members with EQUAL hash() is put into one document in six positions (list, dict, circuit of sub-circuit operations, repeated, nested one level up) and must read back as itself (model: full text / VAL-REF sequence); every operation of the class stream is also moved onto two different qubits left of the origin and the two sub-circuits written into one document. SPELLINGS: equal values have equal hashes across different ways of writing the same value, with no assumption on which spellings are equal (== symmetric, != its negation, == True => same hash, one set element, found as dict key): a fixed grid of parameter assignments (keys as str or sympy.Symbol, items in both orders, whole numbers as int or float) through 19 entry points (ParamResolver, CircuitOperation param_resolver / with_params, Moment / FrozenCircuit / Circuit / tagged carriers, sweeps, ResultDict, QuantumExecutable), every stored example and explored instance against its respellings (alone and inside Moment / FrozenCircuit / CircuitOperation / tagged operation), all pairs of the instances of one class; JSON / pickle / deepcopy of every respelling.',
     note='Not covered by proof: the ~210 per-class _json_dict_/_from_json_dict_ pairs (Python object construction) — explored only, on stored examples and generated mutants; classes with stored examples only, and skipped ones, are listed in the evidence. Trusted: Coq kernel; the Python adapters in vf/checks/c11.py (building Cirq objects from abstract trees, printing Gallina terms); json/pickle/copy of CPython. The model identifies sharing with equality (as CirqEncoder._memo does) and does not model object identity, so the id()-keyed CirqEncoder._cache is explored (audit + stress), not proved. Theorems are closed under the global context.',
     technique='Rocq/Coq proof over an executable Gallina model of the codec core + vm_compute correspondence; typed mutation-based exploration of the registered class population',
 )
@@ -167,7 +167,7 @@ def gen_generic_value(rng, pool, depth):
     if depth <= 0 or r < 0.18:
         c = rng.random()
         if c < 0.45:
-            return ('num', rng.choice([0, 1, 2, 3, -7, 2 ** 70]))
+            return ('num', rng.choice([0, 1, 2, 3, -7, 2 ** 70, -1, -2, M61]))
         if c < 0.85:
             return ('str', rng.choice(['a', 'b', 'VALUE', 'key', '']))
         return ('null',)
@@ -328,26 +328,60 @@ def legacy_doc(rng, pool_vals, top, classes):
     return ('o', [('cirq_type', '_ContextualSerialization'), ('object_dag', dag)])
 
 
+def generic_collision_grid(cirq):
+    """Generic by-key objects (hash = hash of the frozen field tuple) that are distinct and hash alike, found by hashing a
+    pool whose number fields range over small, negative and large integers; each pair in every position of a document."""
+    classes = make_generic_classes(cirq)
+    nums = [0, 1, 2, -1, -2, -3, M61, M61 + 1, -M61, 2 * M61]
+    K = lambda tag, fs: ('obj', tag, fs)
+    pool = [K(t, [('a', ('num', n))]) for t in ('vf.K0', 'vf.K1') for n in nums]
+    pool += [K('vf.K0', [('a', K('vf.K1', [('b', ('num', n))]))]) for n in nums]
+    pool += [K('vf.K1', [('key', ('num', n)), ('val', ('null',))]) for n in nums]
+    pairs = colliding_pairs([(a, realise_generic(a, classes)) for a in pool], limit_per_bucket=2)
+    docs = []
+    for a, b in pairs:
+        docs += [('arr', [a, b]), ('arr', [b, a, b, a]), ('dict', [('p', a), ('q', ('arr', [b, a]))]),
+                 ('obj', 'vf.P0', [('a', a), ('b', b), ('c', a)]),
+                 ('arr', [K('vf.K1', [('obj', a)]), K('vf.K1', [('obj', b)]), b])]
+    return pairs, docs
+
+
 def stream_memo_generic(ctx, cirq, n):
+    pairs, docs = generic_collision_grid(cirq)
+    st = ctx.cov.setdefault('hash_collisions', {})
+    st['generic_pairs_distinct_with_equal_hash'] = len(pairs)
+    st['generic_documents'] = len(docs)
+    if not pairs:
+        ctx.violation('harness-gap:no-colliding-generic-objects', 'the pool of generic by-key objects holds no two distinct members with equal hash()',
+                      dict(kind='gap', cls='collisions'), found_input=False)
+    for shard, i in enumerate(range(0, len(docs), 150)):
+        _memo_generic_shard(ctx, cirq, [(v, []) for v in docs[i:i + 150]], f'coll{shard}', collisions=True)
     for shard, m in enumerate([150] * (n // 150) + ([n % 150] if n % 150 else [])):
-        _memo_generic_shard(ctx, cirq, m, shard)
+        cases = []
+        for i in range(m):
+            pool = []
+            if ctx.rng.random() < 0.15:
+                v = gen_generic_value(ctx.rng, pool, ctx.rng.randint(1, 4))
+            else:       # several members sharing one pool of by-key objects
+                items = [gen_generic_value(ctx.rng, pool, ctx.rng.randint(1, 4)) for _ in range(ctx.rng.randint(2, 5))]
+                v = ('arr', items) if ctx.rng.random() < 0.7 else ('dict', [(f'm{n}', x) for n, x in enumerate(items)])
+            cases.append((v, pool))
+        _memo_generic_shard(ctx, cirq, cases, shard)
 
 
-def _memo_generic_shard(ctx, cirq, n, shard):
+def _memo_generic_shard(ctx, cirq, cases, shard, collisions=False):
     classes = make_generic_classes(cirq)
     resolver = lambda t: classes.get(t) if isinstance(t, str) else None
     resolvers = [resolver] + list(cirq.DEFAULT_RESOLVERS)
     is_key = lambda x: isinstance(x, cirq.SerializableByKey)
     enc_rows, dec_rows = [], []
-    for i in range(n):
-        pool = []
-        if ctx.rng.random() < 0.15:
-            v = gen_generic_value(ctx.rng, pool, ctx.rng.randint(1, 4))
-        else:       # several members sharing one pool of by-key objects
-            items = [gen_generic_value(ctx.rng, pool, ctx.rng.randint(1, 4)) for _ in range(ctx.rng.randint(2, 5))]
-            v = ('arr', items) if ctx.rng.random() < 0.7 else ('dict', [(f'm{n}', x) for n, x in enumerate(items)])
+    for i, (v, pool) in enumerate(cases):
         obj = realise_generic(v, classes)
-        text = cirq.to_json(obj)
+        try:
+            text = cirq.to_json(obj)
+        except Exception as e:      # noqa
+            ctx.violation('codec:generic-roundtrip', f'cirq.to_json(x) raises {type(e).__name__}: {e}; x = {obj!r}'[:600], dict(kind='generic', value=v))
+            continue
         j = parse_json_ordered(text)
         evs = text_events(text)
         nvals = sum(1 for e in evs if e[0])
@@ -358,7 +392,7 @@ def _memo_generic_shard(ctx, cirq, n, shard):
         # property-level oracle on the real code: round trip, sharing
         try:
             back = cirq.read_json(json_text=text, resolvers=resolvers)
-            bad = None if (back == obj and sharing_ok(back, is_key)) else 'the value read back differs or a shared by-key object was duplicated'
+            bad = None if (back == obj and sharing_ok(back, is_key)) else f'the value read back differs ({back!r}) or a shared by-key object was duplicated'
         except Exception as e:      # noqa
             bad = f'read_json raises {type(e).__name__}: {e}'
         if bad:
@@ -385,8 +419,32 @@ def _memo_generic_shard(ctx, cirq, n, shard):
     text += 'Definition dec_cases : list (json * option value) := [\n' + ';\n'.join(
         f'({g_json(d)}, {coq.opt(r, g_value)})' for d, r in dec_rows) + '].\n'
     text += 'Eval vm_compute in failing (fun c => match c with (j, r) => opt_eqb value_eqb (decode j) r end) dec_cases.\n'
+    if collisions:
+        # the memo as a dict over a hash with CPython's integer collisions (Codec/MemoHash.v): the same documents; and how many
+        # of these documents a memo keyed by the hash alone would write differently (the grid's sensitivity)
+        text = text.replace('Codec.JsonMemo.', 'Codec.JsonMemo Codec.MemoHash.', 1)
+        text += ('Eval vm_compute in failing (fun c => match c with (v, j) => json_eqb (encode_dict bk py_value_hash v) j end) enc_cases.\n')
+        text += ('Eval vm_compute in failing (fun c => match c with (v, j) => negb (json_eqb (encode_by_hash bk py_value_hash v) (encode bk v)) end) enc_cases.\n')
+        ints = [0, 1, -1, -2, -3, 7, M61 - 1, M61, M61 + 1, -M61, -M61 - 1, 2 * M61, 2 ** 70, -2 ** 70, 2 ** 61, -2 ** 61, 12345678901234567890]
+        text += 'Definition int_cases : list (Z * Z) := [' + '; '.join(f'({coq.zlit(z)}, {coq.zlit(hash(z))})' for z in ints) + '].\n'
+        text += 'Eval vm_compute in failing (fun c => match c with (z, hz) => Z.eqb (py_int_hash z) hz end) int_cases.\n'
     vals = coq.parse_evals(coq.coq_eval(f'c11_generic_{ctx.seed}_{shard}', text))
-    assert len(vals) == 2, vals
+    assert len(vals) == (5 if collisions else 2), vals
+    if collisions:
+        for idx in coq.parse_nat_list(vals[2]):
+            v, j = enc_rows[idx]
+            ctx.mark_broken('correspondence:memo_dict', f'model of the memo as a dict (hash, then ==) differs from cirq.to_json on {g_value(v)[:400]}: {dump_json_ordered(j)[:400]}')
+        st = ctx.cov.setdefault('hash_collisions', {})
+        same = len(coq.parse_nat_list(vals[3]))
+        st['generic_documents_a_hash_keyed_memo_would_write_differently'] = st.get('generic_documents_a_hash_keyed_memo_would_write_differently', 0) + len(enc_rows) - same
+        bad_ints = coq.parse_nat_list(vals[4])
+        st['int_hash_model_agrees_with_interpreter'] = not bad_ints
+        if bad_ints:
+            ctx.stale_supporting.append(f'py_int_hash: this interpreter hashes integers differently from the model on {len(bad_ints)} of the sample; the collisions '
+                                        'used by C11_memo_by_hash_refuted are then only those found by hashing the pool')
+        if len(enc_rows) - same == 0:
+            ctx.violation('harness-gap:collision-grid-insensitive', 'no document of the generic collision grid would be written differently by a memo keyed by the hash alone',
+                          dict(kind='gap', cls='collisions'), found_input=False)
     for idx in coq.parse_nat_list(vals[0]):
         v, j = enc_rows[idx]
         ctx.mark_broken('correspondence:memo_encode', f'model encode differs from cirq.to_json on {g_value(v)[:400]}: {dump_json_ordered(j)[:400]}')
@@ -400,11 +458,44 @@ def _memo_generic_shard(ctx, cirq, n, shard):
 
 
 # ------------------------------------------------------------------------------------------------ real circuits
+M61 = 2 ** 61 - 1      # CPython reduces integer hashes modulo this prime
+
+
+_ATOMS = {}
+
+
+def circ_atoms(cirq):
+    """Gate operations used as leaves of the abstract circuit trees.  Coordinates are any integers: the non-negative ones of
+    the upstream examples, negative ones (a line/grid that extends left of / above the origin) and large ones."""
+    if id(cirq) not in _ATOMS:
+        L, G = cirq.LineQubit, cirq.GridQubit
+        atoms = [cirq.X(L(i)) for i in range(4)]            # 0..3: as in replay files written by earlier versions
+        atoms += [cirq.X(L(i)) for i in (-1, -2, -3, M61, M61 + 1, -M61)]
+        atoms += [cirq.X(G(r, c)) for r in (-2, -1, 0) for c in (-2, -1, 0)]
+        atoms += [cirq.Y(L(0)), cirq.Z(L(0)) ** 0.5, cirq.X(cirq.NamedQubit('a')), 
+                  cirq.IdentityGate(qid_shape=(3,)).on(cirq.LineQid(-1, 3)), cirq.IdentityGate(qid_shape=(3,)).on(cirq.LineQid(-2, 3))]
+        assert len(atoms) == N_ATOMS
+        _ATOMS[id(cirq)] = atoms
+    return _ATOMS[id(cirq)]
+
+
+N_ATOMS = 4 + 6 + 9 + 5
+REPS = [1, 2, 3, -1, -2, -3]
+
+
+def _gen_atom(rng):
+    return ('op', rng.randrange(4) if rng.random() < 0.6 else rng.randrange(N_ATOMS))
+
+
+def _gen_reps(rng):
+    return rng.choice([1, 2, 3]) if rng.random() < 0.6 else rng.choice(REPS)
+
+
 def gen_circ_tree(rng, pool, depth):
     """abstract nesting of FrozenCircuits (by key), CircuitOperations, Circuits, lists and dicts"""
     r = rng.random()
     if depth <= 0:
-        return ('op', rng.randrange(4))
+        return _gen_atom(rng)
     if pool and r < 0.35:
         return rng.choice(pool)
     if r < 0.60:
@@ -423,20 +514,20 @@ def gen_circ_tree(rng, pool, depth):
 
 def gen_circ_op(rng, pool, depth):
     if depth <= 0 or rng.random() < 0.4:
-        return ('op', rng.randrange(4))
+        return _gen_atom(rng)
     fcs = [p for p in pool if p[0] == 'fc']
     if fcs and rng.random() < 0.5:
         fc = rng.choice(fcs)
     else:
         fc = ('fc', [gen_circ_op(rng, pool, depth - 1) for _ in range(rng.randint(0, 2))], rng.choice([(), (), ('t0',)]))
         pool.append(fc)
-    return ('cop', fc, rng.choice([1, 2, 3]))
+    return ('cop', fc, _gen_reps(rng))
 
 
 def realise_circ(v, cirq):
     k = v[0]
     if k == 'op':
-        return cirq.X(cirq.LineQubit(v[1]))
+        return circ_atoms(cirq)[v[1]]
     if k == 'cop':
         return cirq.CircuitOperation(realise_circ(v[1], cirq), repetitions=v[2])
     if k == 'fc':
@@ -446,6 +537,44 @@ def realise_circ(v, cirq):
     if k == 'list':
         return [realise_circ(x, cirq) for x in v[1]]
     return {kk: realise_circ(x, cirq) for kk, x in v[1]}
+
+
+def colliding_pairs(items, limit_per_bucket=6):
+    """items: (abstract, realised object).  Pairs of DISTINCT objects with EQUAL hash(), found by hashing the pool (no
+    knowledge of the hash function is used: whatever collides in this interpreter is what a dict/memo keyed by the
+    objects must keep apart)."""
+    buckets = collections.OrderedDict()
+    for a, o in items:
+        buckets.setdefault(hash(o), []).append((a, o))
+    out = []
+    for h, members in buckets.items():
+        n = 0
+        for i in range(len(members)):
+            for j in range(i + 1, len(members)):
+                if n < limit_per_bucket and members[i][1] != members[j][1]:
+                    out.append((members[i][0], members[j][0]))
+                    n += 1
+    return out
+
+
+def circuit_collision_grid(cirq):
+    """Documents that hold two distinct sub-circuits whose hashes coincide, in every position a by-key object can take
+    (the same for every seed).  The pool: every atom alone in a FrozenCircuit, tagged, wrapped once more, and one inner
+    circuit repeated r times for every r in REPS."""
+    one = lambda a, tags=(): ('fc', [a], tags)
+    pool = [one(('op', i)) for i in range(N_ATOMS)]
+    pool += [one(('op', i), ('t0',)) for i in range(4, 10)]
+    pool += [one(('cop', one(('op', 0)), r)) for r in REPS]
+    pool += [one(('cop', one(('op', i)), 1)) for i in range(N_ATOMS)]
+    pairs = colliding_pairs([(a, realise_circ(a, cirq)) for a in pool], limit_per_bucket=2)
+    docs = []
+    for a, b in pairs:
+        docs += [('list', [a, b]), ('list', [b, a, b, a]),
+                 ('list', [('cop', a, 1), ('cop', b, 1)]),
+                 ('dict', [('p', a), ('q', ('list', [b, a]))]),
+                 ('list', [('circ', [('cop', a, 1), ('cop', b, 2), ('cop', a, 2)])]),
+                 ('list', [one(('cop', a, 2)), one(('cop', b, 2)), b])]
+    return pairs, docs
 
 
 def model_circ(v):
@@ -490,29 +619,56 @@ def frozen_sharing_ok(cirq, o):
 
 
 def stream_memo_circuits(ctx, cirq, n):
+    pairs, docs = circuit_collision_grid(cirq)
+    st = ctx.cov.setdefault('hash_collisions', {})
+    st['circuit_pairs_distinct_with_equal_hash'] = len(pairs)
+    st['circuit_documents'] = len(docs)
+    st['circuit_pair_samples'] = [[repr(realise_circ(a, cirq))[:120], repr(realise_circ(b, cirq))[:120]] for a, b in pairs[:4]]
+    if not pairs:
+        ctx.violation('harness-gap:no-colliding-frozen-circuits', 'the pool of small FrozenCircuits holds no two distinct members with equal hash(): '
+                      'documents with colliding by-key sub-circuits are not exercised', dict(kind='gap', cls='collisions'), found_input=False)
+    for shard, i in enumerate(range(0, len(docs), 300)):
+        _memo_circuits_shard(ctx, cirq, docs[i:i + 300], f'coll{shard}', 'memo_collisions')
     for shard, m in enumerate([300] * (n // 300) + ([n % 300] if n % 300 else [])):
-        _memo_circuits_shard(ctx, cirq, m, shard)
+        trees = []
+        for i in range(m):
+            pool = []
+            trees.append(('list', [gen_circ_tree(ctx.rng, pool, ctx.rng.randint(2, 4)) for _ in range(ctx.rng.randint(1, 4))]))
+        _memo_circuits_shard(ctx, cirq, trees, shard, 'memo_circuits')
 
 
-def _memo_circuits_shard(ctx, cirq, n, shard):
+def circuit_doc_failure(cirq, obj, text=None):
+    """The property on one document of nested circuits: None, or what fails."""
+    try:
+        text = cirq.to_json(obj) if text is None else text
+        back = cirq.read_json(json_text=text)
+    except Exception as e:      # noqa
+        return f'raises {type(e).__name__}: {e}'[:300]
+    if not _deep_eq(back, obj):
+        return _one_line(f'the value read back differs from the value written: read back {back!r}')[:420]
+    if not frozen_sharing_ok(cirq, back):
+        return 'a shared FrozenCircuit was duplicated'
+    return None
+
+
+def _memo_circuits_shard(ctx, cirq, trees, shard, stream):
     rows = []
-    for i in range(n):
-        pool = []
-        v = ('list', [gen_circ_tree(ctx.rng, pool, ctx.rng.randint(2, 4)) for _ in range(ctx.rng.randint(1, 4))])
+    for v in trees:
         obj = realise_circ(v, cirq)
-        text = cirq.to_json(obj)
+        try:
+            text = cirq.to_json(obj)
+        except Exception as e:      # noqa
+            ctx.violation('codec:circuit-roundtrip', f'cirq.to_json(x) raises {type(e).__name__}: {e}; x = {obj!r}'[:600], dict(kind='circuit_tree', tree=v))
+            continue
         evs = text_events(text)
         rows.append((v, evs))
         nvals = sum(1 for e in evs if e[0])
-        ctx.count('memo_circuits', g_value(model_circ(v)), nvals >= 2 and len(evs) > nvals,
+        ctx.count(stream, g_value(model_circ(v)), nvals >= 2 and (len(evs) > nvals or stream == 'memo_collisions'),
                   sample=dict(value=repr(obj)[:300], events=evs[:16]))
-        try:
-            back = cirq.read_json(json_text=text)
-            bad = None if (back == obj and frozen_sharing_ok(cirq, back)) else 'the value read back differs or a shared FrozenCircuit was duplicated'
-        except Exception as e:      # noqa
-            bad = f'read_json raises {type(e).__name__}: {e}'
+        bad = circuit_doc_failure(cirq, obj, text)
         if bad:
-            ctx.violation('codec:circuit-roundtrip', f'read_json(to_json(x)): {bad}; x = {obj!r}'[:600], dict(kind='circuit_tree', tree=v))
+            note = ' for x holding two distinct sub-circuits whose hash() values coincide:' if stream == 'memo_collisions' else ''
+            ctx.violation('codec:circuit-roundtrip', _one_line(f'read_json(to_json(x)){note} {bad}; x = {obj!r}')[:900], dict(kind='circuit_tree', tree=v))
     text = CASES_HEADER + 'Definition bk (t : string) : bool := String.eqb t "FrozenCircuit".\n'
     text += 'Definition ev_cases : list (value * list (bool * Z)) := [\n' + ';\n'.join(
         '(%s, [%s])' % (g_value(model_circ(v)), '; '.join(f'({"true" if b else "false"}, {coq.zlit(k)})' for b, k in evs))
@@ -523,7 +679,7 @@ def _memo_circuits_shard(ctx, cirq, n, shard):
     assert len(vals) == 1, vals
     for idx in coq.parse_nat_list(vals[0]):
         v, evs = rows[idx]
-        ctx.mark_broken('correspondence:memo_circuits', f'VAL/REF key sequence of cirq.to_json differs from the model on {v}: implementation {evs}')
+        ctx.mark_broken('correspondence:' + stream, f'VAL/REF key sequence of cirq.to_json differs from the model on {v}: implementation {evs}')
         # spec-level oracle: keys dense, every REF after its VAL closed, document reads back
         obj = realise_circ(v, cirq)
         ks = [k for b, k in evs if b]
@@ -597,7 +753,10 @@ def run(ctx):
                 'typed mutants of JSON fields and constructor arguments, nested in lists/dicts/circuits with shared sub-circuits; every stored '
                 '.json/.json_inward against its .repr; cases are distinct by canonical text. KEYS: a fixed grid of (path, name) with 0..4 path entries '
                 '(the same for every seed) plus random ones, through 18 entry points; non-trivial = a key with >= 2 path entries. CROSS-PROCESS: '
-                'what the class stream pickled after hashing, plus (every seed alike) each qid of the pool in 9 containers and renamed-qubit variants.')
+                'what the class stream pickled after hashing, plus (every seed alike) each qid of the pool in 9 containers and renamed-qubit variants. '
+                'COLLISIONS (every seed alike): pairs of distinct by-key objects with equal hash() found by hashing fixed pools (coverage.hash_collisions), each pair in '
+                '5-6 document shapes; non-trivial = >= 2 VAL. SPELLINGS (every seed alike for the grid and the stored examples): families of values written in '
+                'different spellings; non-trivial = at least one pair of the family compares equal (coverage.spellings).')
     ctx.assumptions += ['vf/checks/c11.py adapters: abstract tree -> Cirq objects / Gallina terms, JSON text -> Gallina json',
                         'CPython json/pickle/copy, numpy/pandas/sympy equality as used by cirq._compat.proper_eq',
                         'sharing is identified with equality (CirqEncoder._memo is keyed by ==/hash); object identity (the id()-keyed _cache) is explored, not modelled']
@@ -627,6 +786,7 @@ def run(ctx):
     timed('qids', stream_qids, ctx, mods, pop)
     timed('id_cache', stream_id_cache, ctx, mods, pop, ex.instances)
     timed('keys', stream_keys, ctx, mods)
+    timed('spellings', stream_spellings, ctx, mods, pop, ex)
     timed('xproc_extras', xproc_extras, ctx, mods, pop, ex)
     timed('xproc', stream_xproc, ctx, mods, ex)
 
@@ -647,15 +807,17 @@ def replay(ctx, data):
         return back == obj and sharing_ok(back, lambda x: isinstance(x, cirq.SerializableByKey))
     if k == 'circuit_tree':
         obj = realise_circ(_tuplify(data['tree']), cirq)
-        text = cirq.to_json(obj)
-        print('events', text_events(text))
         try:
-            back = cirq.read_json(json_text=text)
+            text = cirq.to_json(obj)
         except Exception as e:      # noqa
-            print('read_json raises', type(e).__name__, e)
+            print('to_json raises', type(e).__name__, e)
             return False
+        print('value ', repr(obj)[:1500], '\nevents', text_events(text))
+        bad = circuit_doc_failure(cirq, obj, text)
+        if bad:
+            print('read_json(to_json(x))', bad)
         ks = [kk for b, kk in text_events(text) if b]
-        return back == obj and frozen_sharing_ok(cirq, back) and ks == list(range(len(ks)))
+        return bad is None and ks == list(range(len(ks)))
     if k == 'corpus':
         from cirq._compat import proper_eq
         rext = '.repr' if data['ext'] == '.json' else '.repr_inward'
@@ -706,6 +868,22 @@ def replay(ctx, data):
         print('value:', _short_repr(x), '\nkeys :', key_structure(cirq, x))
         for how, d in fails:
             print(f'  {how}: {d}'[:500])
+        return not fails
+    if k == 'eqhash':
+        if 'entry' in data:
+            import sympy
+            sp = assignment_spellings(sympy, spelling_assignments(sympy)[data['assignment']])
+            family = []
+            for m in sp:
+                try:
+                    family.append(spelling_entries(mods)[data['entry']](dict(m)))
+                except Exception:      # noqa
+                    pass
+        else:
+            family = pickle.loads(base64.b64decode(data['pickle_b64']))
+        fails = family_failures(cirq, data['cls'], family)
+        for kind, text, _ in fails[:6]:
+            print(f'  {kind}: {text}'[:600])
         return not fails
     if k == 'id_cache':
         specs = load_specs()
@@ -1275,7 +1453,40 @@ class Explorer:
                 self.stats['nested_in_circuits'] += 1
             except Exception:      # noqa
                 self.stats['circuit_nesting_unavailable'] += 1
+            # the same operation moved onto two different qubits left of / above the origin: two DISTINCT sub-circuits in one
+            # document (whenever their hashes coincide a memo keyed by the objects must still keep them apart)
+            try:
+                va, vb = self.shifted_pair(op)
+                if va is not None:
+                    fa, fb = cirq.FrozenCircuit(va), cirq.FrozenCircuit(vb)
+                    out.append([fa, fb, {'a': cirq.CircuitOperation(fb), 'b': [cirq.CircuitOperation(fa), fb]}])
+                    self.stats['nested_distinct_pairs'] += 1
+                    if fa != fb and hash(fa) == hash(fb):
+                        self.stats['nested_distinct_pairs_with_equal_hash'] += 1
+            except Exception:      # noqa
+                self.stats['shifted_pair_unavailable'] += 1
         return out
+
+    def shifted_pair(self, op):
+        cirq = self.cirq
+        qs = op.qubits
+        if not qs:
+            return None, None
+        q = qs[0]
+        t = type(q)
+        if t is cirq.LineQubit:
+            alts = [cirq.LineQubit(-1), cirq.LineQubit(-2)]
+        elif t is cirq.GridQubit:
+            alts = [cirq.GridQubit(-1, q.col), cirq.GridQubit(-2, q.col)]
+        elif t is cirq.LineQid:
+            alts = [cirq.LineQid(-1, q.dimension), cirq.LineQid(-2, q.dimension)]
+        elif t is cirq.GridQid:
+            alts = [cirq.GridQid(-1, q.col, dimension=q.dimension), cirq.GridQid(-2, q.col, dimension=q.dimension)]
+        else:
+            return None, None
+        if any(a in qs for a in alts):
+            return None, None
+        return tuple(op.transform_qubits({q: a}) for a in alts)
 
     def c_nested(self, x):
         cirq = self.cirq
@@ -1289,7 +1500,7 @@ class Explorer:
                 raise
             back = cirq.read_json(json_text=text)
             if not _deep_eq(back, n):
-                return f'nested value does not round-trip: {n!r}'[:400]
+                return _one_line(f'nested value does not round-trip: {n!r} is read back as {back!r}')[:600]
             if not frozen_sharing_ok(cirq, back):
                 return 'a shared FrozenCircuit was duplicated by the round trip'
             if text != cirq.to_json(n, cls=_nocache_encoder(cirq)):
@@ -1472,9 +1683,13 @@ def stream_classes(ctx, mods, specs, pop):
     return ex
 
 
+def _one_line(t):
+    return ' '.join(str(t).split())
+
+
 def _short_repr(x):
     try:
-        return repr(x)[:200]
+        return _one_line(repr(x))[:200]
     except Exception as e:      # noqa
         return f'<repr raises {type(e).__name__}>'
 
@@ -1489,6 +1704,419 @@ def _replay_of(cirq, label, x, chk, origin):
         except Exception:      # noqa
             pass
     return d
+
+
+# ------------------------------------------------------------------------------------------------ equal values in other spellings
+KEYISH = re.compile(r'TParamKey|ParamResolver|ParamDict|ParamMapping|Sweepable|SweepLike|TParamPair|\bSweep\b')
+NUMISH = re.compile(r'\bfloat\b|TParamVal|\bcomplex\b')
+
+
+def pair_contract(x, y):
+    """What == and hash owe each other on two values, with NO assumption on whether the two are equal: == is symmetric,
+    != is its negation, and when == says True the hashes agree and the two are one set element / one dict key.
+    Returns [(kind, text)]."""
+    try:
+        exy, eyx, nxy = bool(x == y), bool(y == x), bool(x != y)
+    except Exception:      # noqa   array-valued or raising comparisons: judged through proper_eq elsewhere
+        return []
+    fails = []
+    if exy != eyx:
+        fails.append(('eq-asymmetric', f'x == y is {exy} but y == x is {eyx}'))
+    if exy == nxy:
+        fails.append(('ne-inconsistent', f'x == y is {exy} and x != y is {nxy}'))
+    if exy and eyx and _hashable(x) and _hashable(y):
+        if hash(x) != hash(y):
+            fails.append(('hash', 'x == y is True but hash(x) != hash(y)'))
+        elif len({x, y}) != 1 or {x: 1}.get(y) != 1:
+            fails.append(('set', 'x == y and the hashes agree, but {x, y} has two elements / a dict keyed by x does not find y'))
+    return fails
+
+
+class Respeller:
+    """Other ways of writing the SAME constructor arguments of a value: a parameter name as str or as sympy.Symbol where a
+    parameter key is admitted, a whole number as int / float / numpy scalar where a float is admitted, the items of a
+    mapping in another order — one position at a time and all at once, recursively through nested serialisable values."""
+
+    def __init__(self, mut):
+        self.mut, self.cirq, self.sympy = mut, mut.cirq, mut.sympy
+        import numpy as np
+        self.np = np
+
+    def spell(self, v, keyish, numish, depth):
+        sympy, np = self.sympy, self.np
+        out = []
+        if isinstance(v, bool) or v is None:
+            return out
+        if isinstance(v, sympy.Symbol):
+            return [v.name] if keyish else out
+        if isinstance(v, str):
+            return [sympy.Symbol(v)] if keyish and v.isidentifier() else out
+        if isinstance(v, float):
+            if numish:
+                if v == int(v) and abs(v) < 2 ** 53:
+                    out.append(int(v))
+                out.append(np.float64(v))
+            return out
+        if isinstance(v, int):
+            return [float(v), np.int64(v)] if numish and abs(v) < 2 ** 53 else out
+        if isinstance(v, (list, tuple)):
+            mk = type(v) if type(v) in (list, tuple) else list
+            idx = list(range(len(v))) if len(v) <= 4 else [0, 1, 2, len(v) - 1]
+            per = {i: (self.spell(v[i], keyish, numish, depth + 1)[:1] if depth < 6 else []) for i in idx}
+            for i in idx:
+                if per[i]:
+                    w = list(v)
+                    w[i] = per[i][0]
+                    out.append(mk(w))
+            if sum(1 for i in idx if per[i]) >= 2:
+                out.append(mk([per[i][0] if per.get(i) else e for i, e in enumerate(v)]))
+            if len(v) >= 2 and all(isinstance(e, (list, tuple)) and len(e) == 2 for e in v):     # the items of a mapping
+                out.append(mk(list(reversed(v))))
+            return out
+        if isinstance(v, dict):
+            for k in list(v)[:3]:
+                for a in (self.spell(v[k], keyish, numish, depth + 1)[:1] if depth < 6 else []):
+                    out.append(dict(v, **{k: a}) if isinstance(k, str) else {kk: (a if kk is k else vv) for kk, vv in v.items()})
+            if len(v) >= 2:
+                out.append(dict(reversed(list(v.items()))))
+            return out
+        if hasattr(v, '_json_dict_') and not isinstance(v, type) and depth < 6:
+            return self.respellings(v, depth + 1, keep=3)
+        return out
+
+    def respellings(self, x, depth=0, keep=8):
+        mut, cls = self.mut, type(x)
+        try:
+            with time_limit(5), warnings.catch_warnings():
+                warnings.simplefilter('ignore')
+                d = mut.view(x)
+                if not isinstance(d, dict) or not _safe_eq(mut.build(cls, d), x):
+                    return []
+        except Exception:      # noqa
+            return []
+        anns = mut.annotations(cls)
+        cands = []
+        for k in d:
+            ann = anns.get(k) or ''
+            try:
+                for a in self.spell(d[k], bool(KEYISH.search(ann)), bool(NUMISH.search(ann)), depth):
+                    cands.append({k: a})
+            except Exception:      # noqa
+                continue
+        firsts = {}
+        for c in cands:
+            for k, a in c.items():
+                firsts.setdefault(k, a)
+        if len(firsts) >= 2:
+            cands.append(firsts)
+        out = []
+        for extra in cands:
+            try:
+                with time_limit(5), warnings.catch_warnings():
+                    warnings.simplefilter('ignore')
+                    m = mut.build(cls, d, extra)
+                if type(m) is cls:
+                    out.append(m)
+            except Exception:      # noqa   the constructor does not take this spelling
+                continue
+            if len(out) >= keep:
+                break
+        return out
+
+
+def spelling_carriers(cirq, x):
+    """hashable values that carry x: name -> builder"""
+    out = collections.OrderedDict()
+    op = x if isinstance(x, cirq.Operation) else None
+    if op is None and isinstance(x, cirq.Gate):
+        out['on qids'] = lambda y: y.on(*cirq.LineQid.for_gate(y))
+    if op is not None:
+        out['Moment'] = lambda y: cirq.Moment(y)
+        out['FrozenCircuit'] = lambda y: cirq.FrozenCircuit(y)
+        out['CircuitOperation of FrozenCircuit'] = lambda y: cirq.CircuitOperation(cirq.FrozenCircuit(y), repetitions=2)
+        out['tagged'] = lambda y: y.with_tags('vf_t')
+        out['Circuit'] = lambda y: cirq.Circuit(y)
+    return out
+
+
+def eqhash_root(x, y, depth=0):
+    """x == y with different hashes: the innermost pair of corresponding parts (fields of the JSON dictionaries, members of
+    sequences) that is itself equal with different hashes — the value whose __eq__/__hash__ disagree."""
+    def parts(a, b):
+        if isinstance(a, (list, tuple)) and isinstance(b, (list, tuple)):
+            if len(a) == len(b):
+                for u, w in zip(a, b):
+                    yield u, w
+            return
+        if isinstance(a, dict) and isinstance(b, dict):
+            for k in a:
+                if k in b:
+                    yield a[k], b[k]
+            return
+        if hasattr(a, '_json_dict_') and type(a) is type(b):
+            try:
+                da, db = a._json_dict_(), b._json_dict_()
+            except Exception:      # noqa
+                return
+            for k in da:
+                if k in db:
+                    yield da[k], db[k]
+    if depth < 8:
+        for u, w in parts(x, y):
+            r = eqhash_root(u, w, depth + 1)
+            if r is not None:
+                return r
+    try:
+        if not isinstance(x, (list, tuple, dict)) and bool(x == y) and _hashable(x) and _hashable(y) and hash(x) != hash(y):
+            return x, y
+    except Exception:      # noqa
+        pass
+    return None
+
+
+def family_failures(cirq, label, family, copies=True):
+    """[(kind, text, [values])] for one family of values that may or may not be equal to each other"""
+    fails = []
+    for i in range(len(family)):
+        for j in range(i + 1, len(family)):
+            x, y = family[i], family[j]
+            for kind, text in pair_contract(x, y):
+                fails.append((kind, f'{label}: {text}; x = {_short_repr(x)}, y = {_short_repr(y)}', [x, y]))
+    if copies:
+        for x in family[1:]:
+            if not hasattr(x, '_json_dict_'):
+                continue
+            for how, f in (('read_json(to_json(x))', lambda: cirq.read_json(json_text=cirq.to_json(x))),
+                           ('pickle', lambda: pickle.loads(pickle.dumps(x))), ('deepcopy', lambda: copy.deepcopy(x))):
+                try:
+                    with warnings.catch_warnings():
+                        warnings.simplefilter('ignore')
+                        hx = hash(x) if _hashable(x) else None
+                        y = f()
+                    if not (_safe_eq(y, x) and _safe_eq(x, y)):
+                        fails.append(('copy', f'{label}: {how} = {_short_repr(y)} is not equal to x = {_short_repr(x)}', [x]))
+                    elif hx is not None and hash(y) != hx:
+                        fails.append(('copy-hash', f'{label}: {how} is equal to x but hashes differently; x = {_short_repr(x)}', [x]))
+                except Exception as e:      # noqa
+                    fails.append(('copy', f'{label}: {how} raises {type(e).__name__}: {e}; x = {_short_repr(x)}'[:500], [x]))
+    return fails
+
+
+def assignment_spellings(sympy, assignment):
+    """one name->value assignment written in every way: each key as str or sympy.Symbol, the items in both orders, whole
+    numbers as int or float"""
+    import itertools
+    names = list(assignment)
+    out = []
+    for as_sym in itertools.product((False, True), repeat=len(names)):
+        out.append({(sympy.Symbol(n) if s else n): assignment[n] for n, s in zip(names, as_sym)})
+    if len(names) >= 2:
+        out.append({n: assignment[n] for n in reversed(names)})
+        out.append({sympy.Symbol(n): assignment[n] for n in reversed(names)})
+    num = {n: (float(v) if isinstance(v, int) else int(v) if isinstance(v, float) and v == int(v) else v) for n, v in assignment.items()}
+    if any(type(num[n]) is not type(assignment[n]) for n in names):
+        out.append(num)
+    return out
+
+
+def spelling_entries(mods):
+    """Every way a parameter assignment (or a parameter key) reaches a serialisable value: name -> builder(mapping)."""
+    import sympy, numpy as np
+    cirq, cg = mods['cirq'], mods['cirq_google']
+    q = cirq.LineQubit(0)
+    a, b, c = sympy.Symbol('a'), sympy.Symbol('b'), sympy.Symbol('c')
+    body = cirq.FrozenCircuit(cirq.X(q) ** a, cirq.Z(q) ** b, cirq.Y(q) ** c, cirq.measure(q, key='z'))
+    cop = lambda m: cirq.CircuitOperation(body, param_resolver=m)
+    numeric = lambda m: {k: v for k, v in m.items() if isinstance(v, (int, float))}
+    return collections.OrderedDict([
+        ('ParamResolver', lambda m: cirq.ParamResolver(m)),
+        ('CircuitOperation(param_resolver=)', cop),
+        ('CircuitOperation.with_params', lambda m: cirq.CircuitOperation(body).with_params(m)),
+        ('CircuitOperation.with_params twice', lambda m: cirq.CircuitOperation(body).with_params(dict(list(m.items())[:1])).with_params(dict(list(m.items())[1:]))),
+        ('Moment of CircuitOperation', lambda m: cirq.Moment(cop(m))),
+        ('FrozenCircuit of CircuitOperation', lambda m: cirq.FrozenCircuit(cop(m))),
+        ('CircuitOperation nested', lambda m: cirq.CircuitOperation(cirq.FrozenCircuit(cop(m)), repetitions=2)),
+        ('tagged CircuitOperation', lambda m: cop(m).with_tags('vf_t')),
+        ('Circuit of CircuitOperation', lambda m: cirq.Circuit(cop(m))),
+        ('ListSweep', lambda m: cirq.ListSweep([m])),
+        ('to_resolvers', lambda m: tuple(cirq.to_resolvers(m))),
+        ('ResultDict', lambda m: cirq.ResultDict(params=cirq.ParamResolver(m), measurements={'z': np.array([[0], [1]])})),
+        ('Points', lambda m: tuple(cirq.Points(k, [v, 0.5]) for k, v in numeric(m).items())),
+        ('Linspace', lambda m: tuple(cirq.Linspace(k, 0, v, 3) for k, v in numeric(m).items())),
+        ('Zip of Points', lambda m: cirq.Zip(*[cirq.Points(k, [v, 0.5]) for k, v in numeric(m).items()])),
+        ('Product of Points', lambda m: cirq.Product(*[cirq.Points(k, [v, 0.5]) for k, v in numeric(m).items()])),
+        ('dict_to_product_sweep', lambda m: cirq.dict_to_product_sweep({k: [v] for k, v in numeric(m).items()})),
+        ('dict_to_zip_sweep', lambda m: cirq.dict_to_zip_sweep({k: [v] for k, v in numeric(m).items()})),
+        ('QuantumExecutable(params=)', lambda m: cg.QuantumExecutable(
+            cirq.FrozenCircuit(cirq.X(q) ** a, cirq.measure(q, key='z')), cg.BitstringsMeasurement(3), params=m)),
+    ])
+
+
+def spelling_assignments(sympy):
+    c = sympy.Symbol('c')
+    return [{'a': 0.5}, {'a': 0.5, 'b': 0.25}, {'a': 1, 'b': c + 1}, {'a': 0.5, 'b': 0.75, 'c': -1}, {'a': c}, {'a': 2.0, 'b': 'c'}]
+
+
+def stream_spellings(ctx, mods, pop, ex):
+    """Equal values have equal hashes — across different SPELLINGS of the same value, which the round-trip oracles never
+    compare: (a) a fixed grid (every seed alike) of parameter assignments in all their spellings through every entry point
+    that takes one; (b) every stored example and explored instance of every class against its respellings (Respeller),
+    alone and inside the hashable values that carry it; (c) all pairs of the instances met for one class."""
+    cirq = mods['cirq']
+    import sympy
+    stats = collections.Counter()
+    reported = set()
+
+    def report(origin, cls, fails, replay_extra):
+        for kind, text, vals in fails:
+            inner = eqhash_root(vals[0], vals[1]) if kind in ('hash', 'set') and len(vals) == 2 else None
+            if inner is not None and inner[0] is not vals[0]:
+                text += f'; the innermost equal parts with different hashes: {_short_repr(inner[0])} and {_short_repr(inner[1])}'
+            sig = f'eqhash:{type(inner[0]).__name__ if inner else cls}:{kind}'
+            if sig in reported:
+                continue
+            reported.add(sig)
+            rp = dict(kind='eqhash', cls=cls, origin=origin, reprs=[_short_repr(v) for v in vals], **replay_extra)
+            try:
+                rp['pickle_b64'] = base64.b64encode(pickle.dumps(vals)).decode()
+            except Exception:      # noqa
+                pass
+            ctx.violation(sig, f'{origin}: {text}'[:900], rp)
+    # ---- (a) the fixed grid
+    entries = spelling_entries(mods)
+    for ai, assignment in enumerate(spelling_assignments(sympy)):
+        sp = assignment_spellings(sympy, assignment)
+        for ename, build in entries.items():
+            family = []
+            for m in sp:
+                try:
+                    with warnings.catch_warnings():
+                        warnings.simplefilter('ignore')
+                        family.append(build(dict(m)))
+                except Exception:      # noqa   the entry point rejects this spelling
+                    stats['grid_rejected'] += 1
+            if len(family) < 2:
+                continue
+            try:
+                neq = sum(1 for i in range(len(family)) for j in range(i + 1, len(family)) if _safe_eq(family[i], family[j]))
+            except Exception:      # noqa
+                neq = 0
+            stats['grid_families'] += 1
+            stats['grid_equal_pairs'] += neq
+            ctx.count('spellings_grid', f'{ename}|{ai}', neq >= 1, sample=dict(entry=ename, assignment=repr(assignment), spellings=len(family), equal_pairs=neq,
+                                                                              example=_short_repr(family[-1])))
+            report(f'{ename} over the assignment {assignment!r} in {len(family)} spellings', ename,
+                   family_failures(cirq, ename, family), dict(entry=ename, assignment=ai))
+    # ---- the model of mapping equality (Codec/MemoHash.v: dict_eqb over keys spelled as names or symbols) against ParamResolver ==
+    rows, vtable = [], []
+
+    def g_items(r):
+        out = []
+        for k, v in r.param_dict.items():
+            idx = next((i for i, w in enumerate(vtable) if type(w) is type(v) and w == v), None)
+            if idx is None:
+                vtable.append(v)
+                idx = len(vtable) - 1
+            out.append('(%s %s, %d%%Z)' % ('KSym' if isinstance(k, sympy.Symbol) else 'KName', gstr(k.name if isinstance(k, sympy.Symbol) else k), idx))
+        return '[' + '; '.join(out) + ']'
+    for assignment in spelling_assignments(sympy):
+        fam = [cirq.ParamResolver(dict(m)) for m in assignment_spellings(sympy, assignment) if all(type(v) is type(assignment[getattr(k, 'name', k)]) for k, v in m.items())]
+        for i in range(len(fam)):
+            for j in range(len(fam)):
+                rows.append((g_items(fam[i]), g_items(fam[j]), bool(fam[i] == fam[j]), fam[i], fam[j]))
+                ctx.count('resolver_eq_model', f'{rows[-1][0]}|{rows[-1][1]}', i != j)
+    text = ('From Coq Require Import ZArith List Bool String.\nFrom VF Require Import Base.Harness Codec.JsonMemo Codec.MemoHash.\n'
+            'Import ListNotations.\nOpen Scope string_scope.\n')
+    text += 'Definition rcases : list (list item * list item * bool) := [\n' + ';\n'.join(
+        f'({a}, {b}, {"true" if e else "false"})' for a, b, e, _, _ in rows) + '].\n'
+    text += 'Eval vm_compute in failing (fun c => match c with (a, b, e) => Bool.eqb (dict_eqb a b) e end) rcases.\n'
+    vals = coq.parse_evals(coq.coq_eval(f'c11_resolvers_{ctx.seed}', text))
+    assert len(vals) == 1, vals
+    diff = coq.parse_nat_list(vals[0])
+    stats['resolver_eq_model_pairs'] = len(rows)
+    if diff:
+        # which spellings are equal is not pinned by the property (only: equal => same hash, decided above on the real objects)
+        a, b, e, x, y = rows[diff[0]]
+        ctx.stale_supporting.append(f'resolver_eq: ParamResolver.__eq__ differs from dict equality of the items as written on {len(diff)} pairs, e.g. '
+                                    f'{x!r} == {y!r} is {e}; C11_dict_eq_hash then speaks about an equality that is no longer the code\'s '
+                                    '(C11_name_eq_raw_hash_refuted describes the hazard)')
+    # ---- (b) respellings of the class population
+    mut = Mutator(mods, pop, ctx.rng)
+    rs = Respeller(mut)
+    seen_ids, todo, per_type = set(), [], collections.Counter()
+    cap = 6 if ctx.tier == 'quick' else 24
+    for t, objs in pop.by_type.items():
+        for o in objs:
+            todo.append(o)
+            seen_ids.add(id(o))
+            per_type[type(o)] += 1
+    for o in ex.instances:
+        if id(o) not in seen_ids and hasattr(o, '_json_dict_') and per_type[type(o)] < 12 + cap:
+            todo.append(o)
+            seen_ids.add(id(o))
+            per_type[type(o)] += 1
+    by_cls = collections.defaultdict(list)
+    t_end = time.time() + (40 if ctx.tier == 'quick' else 600)
+    for x in todo:
+        by_cls[type(x)].append(x)
+        if time.time() > t_end:
+            stats['respell_skipped_time_budget'] += 1
+            continue
+        try:
+            with time_limit(20):
+                alts = rs.respellings(x)
+        except _Timeout:
+            stats['timeouts'] += 1
+            continue
+        except Exception:      # noqa
+            continue
+        if not alts:
+            continue
+        name = type(x).__name__
+        family = [x] + alts
+        neq = sum(1 for y in alts if _safe_eq(x, y))
+        stats['respelled_instances'] += 1
+        stats['respellings'] += len(alts)
+        stats['respellings_equal_to_source'] += neq
+        stats['classes_respelled:' + name] = 1
+        ctx.count('spellings_classes', name + '|' + _short_repr(x), neq >= 1, sample=dict(cls=name, value=_short_repr(x), respelled=[_short_repr(y) for y in alts[:3]], equal=neq))
+        with time_limit(30):
+            try:
+                report(f'{name} and its respellings', name, family_failures(cirq, name, family), {})
+                for cname, lift in spelling_carriers(cirq, x).items():
+                    try:
+                        with warnings.catch_warnings():
+                            warnings.simplefilter('ignore')
+                            lifted = [lift(y) for y in family]
+                    except Exception:      # noqa
+                        continue
+                    report(f'{cname} over {name} and its respellings', name, family_failures(cirq, f'{cname}({name})', lifted, copies=False), dict(carrier=cname))
+                    if cname == 'on qids':
+                        for c2, lift2 in spelling_carriers(cirq, lifted[0]).items():
+                            try:
+                                l2 = [lift2(y) for y in lifted]
+                            except Exception:      # noqa
+                                continue
+                            report(f'{c2} over {name} and its respellings', name, family_failures(cirq, f'{c2}({name})', l2, copies=False), dict(carrier=c2))
+            except _Timeout:
+                stats['timeouts'] += 1
+    # ---- (c) all pairs of the instances of one class
+    for t, objs in by_cls.items():
+        objs = objs[:16]
+        try:
+            with time_limit(10):
+                fails = family_failures(cirq, t.__name__, objs, copies=False)
+                stats['class_pairs'] += len(objs) * (len(objs) - 1) // 2
+        except _Timeout:
+            stats['timeouts'] += 1
+            continue
+        report(f'instances of {t.__name__}', t.__name__, fails, {})
+    nres = sum(1 for k in stats if k.startswith('classes_respelled:'))
+    table = {k: v for k, v in stats.items() if not k.startswith('classes_respelled:')}
+    table['classes_respelled'] = nres
+    table['classes_respelled_names'] = sorted(k.split(':', 1)[1] for k in stats if k.startswith('classes_respelled:'))[:80]
+    table['entry_points'] = len(entries)
+    ctx.cov['spellings'] = table
 
 
 # ------------------------------------------------------------------------------------------------ measurement keys of any nesting depth
